@@ -80,15 +80,20 @@ def rule_layout(ctx, tu, I, py):
     ctx.floor(R, 90)
 
 
-def rule_phase(ctx, tu, eff):
-    R = "C01.PHASE"
+def rule_phase(ctx, tu, eff, R="C01.PHASE"):
     for cn in ("Euler3D", "EulerGraph"):
         c = tu.classes[cn]
-        comp, app = c.methods["Compute_dxdt"], c.methods["Apply_dxdt"]
+        comp, app = c.methods.get("Compute_dxdt"), c.methods.get("Apply_dxdt")
+        ctx.need(comp is not None, R, "%s::Compute_dxdt not found" % cn)
         w = eff.writes(comp.qual)
         ctx.check("f:mesh_x" not in w, R, comp.node, comp.qual, "Compute_dxdt and its callees do not write the state",
                   "every derivative is computed from the state of the previous step", "the derivative pass modifies the state "
-                  "it reads: later entries see a partially updated state")
+                  "it reads: later entries see a partially updated state, what one cell loses is no longer what its neighbour "
+                  "gains within the step")
+        if app is None:
+            ctx.violation(R, c.node, cn, "no separate update pass (Apply_dxdt)", "the explicit Euler step needs all derivatives of "
+                          "the old state before any entry is updated")
+            continue
         ups = upd.summaries(app, {"mesh_x"})
         ctx.need(len(ups) == 1, R, "%s: expected one store" % app.qual)
         u = ups[0]
